@@ -576,4 +576,11 @@ func runC11(c *engine.Ctx) {
 	}
 	checkWorkerTeardown(c)
 	_ = fmt.Sprint
+
+	// ---- R9 a failed Run leaves no listener behind (shared with C10.R2): a route that stays registered without an
+	// accept loop answers the user and then never bridges nor closes the connection ----
+	checkRunRollbacks(c, "R9")
+	// ---- R10 idle backend (work) connections are pooled per route and endpoint (shared with C02.R4): a pooled work
+	// connection announced for one proxy must not serve a request routed to another ----
+	checkPoolKey(c, "R10")
 }
